@@ -703,6 +703,37 @@ func runC08(r *Run) {
 				"the prefix handed to the recursive call is not the key the sub-app was registered under: a grandchild mounted at /api/sub/third is registered under /sub/third, so its error handler is chosen for foreign paths and (depending on map order) not for its own")
 		}
 		r.atLeast("recursive calls", n, 1)
+		// the descent does not depend on whether the prefix is already known: mounting registers the sub-app's
+		// lists as they are at that moment, apps mounted into it afterwards are only found by descending again
+		isRec := func(in ssa.Instruction) bool {
+			ci, ok := in.(ssa.CallInstruction)
+			return ok && ci.Common().StaticCallee() == f
+		}
+		isNext := func(in ssa.Instruction) bool { _, ok := in.(*ssa.Next); return ok }
+		m := 0
+		for _, in := range instrsWhereOne(f, func(in ssa.Instruction) bool {
+			l, ok := in.(*ssa.Lookup)
+			return ok && l.CommaOk && loadOfField(l.X, "mountFields.appList")
+		}) {
+			for _, ref := range *in.(*ssa.Lookup).Referrers() {
+				ex, ok := ref.(*ssa.Extract)
+				if !ok || ex.Index != 1 {
+					continue
+				}
+				for _, br := range ifsOnValue(f, ex) {
+					m++
+					both := true
+					for sl := 0; sl < 2; sl++ {
+						if _, hit := reach(pointOfEdge(edge{br.If.Block(), sl}), isRec, nil, isNext); hit == nil {
+							both = false
+						}
+					}
+					r.check(both, fmt.Sprintf("appendSubAppLists:known-prefix#%d:still-descends", m), r.pos(br.If), "the recursive call is reachable in the same iteration whether or not the prefix was already registered",
+						"a sub-app whose prefix is already registered is not descended into: an app mounted into it after it was itself mounted is never registered with the root, so its error handler is not chosen for its own paths")
+				}
+			}
+		}
+		r.count("tests of `prefix already registered`", m)
 	})
 
 	r.rule("R7", "the mounted handler is chosen the way routes are matched: when registration folds patterns to lower case (unless CaseSensitive), the candidate test folds path and prefix too (E5)", func() {
